@@ -1394,6 +1394,17 @@ class OptionStore:
 
         self.subprojects.add(subproject)
 
+    def _relink_yielding_options(self, old: AnyOptionType, new: AnyOptionType) -> None:
+        '''Options that yield to an option object that has been replaced
+        yield to its replacement (if that still has the same type).'''
+        for opt in self.options.values():
+            if opt.parent is old:
+                if type(opt) is type(new):
+                    opt.parent = new
+                else:
+                    opt.parent = None
+                    opt.yielding = False
+
     def update_project_options(self, project_options: MutableKeyedOptionDictType, subproject: SubProject) -> None:
         for key, value in project_options.items():
             assert key.machine is MachineChoice.HOST
@@ -1405,12 +1416,22 @@ class OptionStore:
 
             oldval = self.get_value_object(key)
             if type(oldval) is not type(value):
-                self.set_option(key, value.value)
+                # Declared again with another type: the old value means
+                # nothing for it, start from the new default.
+                del self.options[key]
+                self.project_options.discard(key)
+                self.add_project_option(key, value)
+                self._relink_yielding_options(oldval, value)
             elif choices_are_different(oldval, value):
                 # If the choices have changed, use the new value, but attempt
                 # to keep the old options. If they are not valid keep the new
                 # defaults but warn.
                 self.options[key] = value
+                if value.yielding:
+                    # Still yields to what the replaced object yielded to
+                    value.parent = oldval.parent
+                    value.yielding = oldval.yielding
+                self._relink_yielding_options(oldval, value)
                 try:
                     value.set_value(oldval.value)
                 except MesonException:
